@@ -169,15 +169,22 @@ partial def rdManyNum (acc : List Num) : Rd (List Num) := do
     let s ← rdNum
     rdManyNum (s :: acc)
 
+/-- what a `Hasher` sees of a feed: the bytes. `write_usize` / `write_u64` write eight little-endian bytes,
+`str::hash` the UTF-8 bytes followed by 0xff — so `usize 0` and `u64 0`, or differently grouped writes with the
+same bytes, are ONE input to the hasher (e.g. an empty image followed by an empty set, and the other way round) -/
+def le8 (n : Nat) : List Nat := (List.range 8).map (fun i => (n / 256 ^ i) % 256)
+
+def tokBytes : Tok → List Nat
+  | .str s => (String.ofList s).toUTF8.toList.map (·.toNat) ++ [255]
+  | .usize n => le8 n
+  | .u64 n => le8 n
+
+def feedBytes (toks : List Tok) : List Nat := toks.flatMap tokBytes
+
 /-- a stand-in for the fixed-key `DefaultHasher` on an element's own feed (the theorems quantify over
-every such function; the driver needs one that separates different feeds) -/
+every such function; the driver needs one that depends on the bytes only and separates different byte strings) -/
 def driverH0 (toks : List Tok) : Nat :=
-  toks.foldl (fun acc t =>
-    let v := match t with
-      | .str s => s.foldl (fun a c => (a * 1000003 + c.toNat + 1) % 18446744073709551557) 7
-      | .usize n => (n * 31 + 11) % 18446744073709551557
-      | .u64 n => (n * 37 + 13) % 18446744073709551557
-    (acc * 6364136223846793005 + v + 1442695040888963407) % 2 ^ 64) 14695981039346656037
+  (feedBytes toks).foldl (fun acc b => (acc * 6364136223846793005 + b + 1442695040888963407) % 2 ^ 64) 14695981039346656037
 
 /-- every number handed to a printer must be what Rust prints for it -/
 def numsOf : Narsese → List Num
@@ -253,7 +260,7 @@ def exec (op fmt payload : String) : Except String String := do
     pure s!"b {bit (sem a b)}"
   | "hasheq" =>
     let (a, b) ← runRd (do let a ← rdTerm; let b ← rdTerm; pure (a, b)) payload
-    pure s!"b {bit (decide (feed driverH0 a = feed driverH0 b))}"
+    pure s!"b {bit (decide (feedBytes (feed driverH0 a) = feedBytes (feed driverH0 b)))}"
   | "typst" =>
     let v ← runRd rdNarsese payload
     pure (typstOut v)
